@@ -13,6 +13,12 @@ CONSTANTS Scenarios = {}
   HoldData = {}
   HoldForms = {"seq"}
   HoldRc = {FALSE, TRUE}
+  Muts = {TRUE}
+  MutScenarios = {}
+  MutData = {}
+  MutForms = {"seq"}
+  MutRc = {FALSE, TRUE}
+  MaxRep = 2
   KeepHistory = FALSE
   Design = "allowed"
 INVARIANT NoTruncated
